@@ -922,6 +922,9 @@ impl System {
             let uid = r.take_server_uid();
             if !uid.is_empty() {
                 server_uid = uid;
+            } else {
+                // the real bootstrap generates a fresh random uid when the journal has none
+                server_uid = "hqmcuid-regenerated".to_string();
             }
             restorer = Some(r);
         }
